@@ -132,45 +132,7 @@ def _reads_upvar(body, op, name):
     """does operand derive from the closure/coroutine upvar called `name`?"""
     if op[0] not in ("c", "m"):
         return False
-    upv = {tuple(map(_freeze, pl[1:])): n for n, pl in body.raw.get("upvars", [])}
-    o = origin_of_operand(body, op)
-    for n, pl in body.raw.get("upvars", []):
-        if n != name:
-            continue
-        # the upvar place is _1.<field idx>...; look for an assignment reading that field
-        fidx = [p[1] for p in pl[1:] if isinstance(p, list) and p[0] == "f"]
-        for i, j, lhs, rv, _ in body.assigns():
-            for rp in rvalue_places(rv):
-                if rp[0] == 1:
-                    f2 = [p[1] for p in rp[1:] if isinstance(p, list) and p[0] == "f"]
-                    if f2[:len(fidx)] == fidx and lhs[0] in _chain_locals(body, op):
-                        return True
-    return False
-
-
-def _freeze(x):
-    return tuple(x) if isinstance(x, list) else x
-
-
-def _chain_locals(body, op):
-    """locals on the backward def-use chain of operand"""
-    seen = set()
-    work = [op[1][0]]
-    defs = body.defs()
-    while work:
-        l = work.pop()
-        if l in seen:
-            continue
-        seen.add(l)
-        for d in defs.get(l, ()):
-            if d[0] == "assign":
-                for pl in rvalue_places(d[3]):
-                    work.append(pl[0])
-            else:
-                for a in d[2].args[:1]:
-                    if a[0] in ("c", "m"):
-                        work.append(a[1][0])
-    return seen
+    return name in origin_of_operand(body, op).upvar_names
 
 
 @rule("C04", "C04.R5", "removals from the conflict map keep `every commit >= kept_since is recorded`")
